@@ -95,6 +95,8 @@ FAMILIES = {
             "chain_cap": True},
     "cuboid_cells": {"base": "harness:cuboid_hard_cells", "n": (4, 16), "cost": 1, "lattice": True,
                      "chain_cap": True, "cuboid": True},
+    "dense_cells": {"base": "harness:cuboid_hard_cells", "n": (12, 30), "cost": 2, "lattice": True,
+                    "chain_cap": True, "cuboid": True, "dense": True},
     "cuboid_soft": {"base": "harness:cuboid_soft", "n": (2, 8), "cost": 1, "chain_cap": True, "cuboid": True},
     "hdd_cells": {"base": "harness:hard_disk_dipoles_cells", "n": (9, 9), "cost": 2, "lattice": True,
                   "fixed_n": True, "chain_cap": True},
@@ -118,7 +120,10 @@ def generate(rng, family, package_dir, events=2000, vary=True, shipped_n=False):
         # a generated well-formed factor file: the intra-molecular bond plus random subsets of the four inter-
         # molecular index pairs for each pair factor type
         pairs = ["[0, 2]", "[0, 3]", "[1, 2]", "[1, 3]"]
-        lines = ["[0, 1], Harmonic"]
+        if rng.random() < 0.5:
+            # the format does not require sorted index lists
+            pairs = [p if rng.random() < 0.5 else "[%s, %s]" % (p[4], p[1]) for p in pairs]
+        lines = ["[0, 1], Harmonic" if rng.random() < 0.7 else "[1, 0], Harmonic"]
         for label in ("Repulsive", "Coulomb"):
             chosen = [p for p in pairs if rng.random() < 0.6] or [rng.choice(pairs)]
             rng.shuffle(chosen)
@@ -142,6 +147,11 @@ def generate(rng, family, package_dir, events=2000, vary=True, shipped_n=False):
         if "CuboidPeriodicCells" in sections:
             # cell sides of at least 0.22 (sphere diameter 0.1, jitter), at least 3 cells per side
             cells = [max(3, min(rng.randint(3, 7), int(length / 0.22))) for length in lengths]
+            if spec.get("dense"):
+                # few large cells, small spheres: several units per cell, surplus lists with more than one entry
+                cells = [3 for _ in lengths]
+                set_out.setdefault("HardSpherePotential", {})["radius"] = "0.02"
+                set_out.setdefault("LatticeInputHandler", {})["jitter"] = "0.02"
             set_out.setdefault("CuboidPeriodicCells", {})["cells_per_side"] = ", ".join(map(str, cells))
             set_out.setdefault("SingleActiveCellOccupancy", {})["maximum_number_occupants"] = str(
                 rng.choice([1, 1, 2, -1]))
@@ -178,6 +188,8 @@ def generate(rng, family, package_dir, events=2000, vary=True, shipped_n=False):
                 rng.randrange(dim))
             ident = scenario_module.split_list(start["initial_active_identifier"])
             ident[0] = str(rng.randrange(n))
+            if len(ident) == 2 and input_section == "RandomInputHandler":
+                ident[1] = str(rng.randrange(NODES_PER_ROOT[sections[input_section]["random_node_creator"]]))
             set_out["InitialChainStartOfRunEventHandler"]["initial_active_identifier"] = ", ".join(ident)
         # cell system knobs
         if spec.get("cells") and "CuboidPeriodicCells" in sections:
